@@ -52,6 +52,15 @@ Section Num.
   (* modeling/math.py: se = sqrt(diag(cov)) *)
   Definition se_from_cov (cov : fmatrix) : list F := map fsqrt (diagv cov).
 
+  (* modeling/math.py, the precision-matrix conversions; np.linalg.inv is an oracle *)
+  Variable finv : fmatrix -> fmatrix.
+  Definition cov_from_prec (P : fmatrix) : fmatrix := finv P.
+  Definition se_from_prec (P : fmatrix) : list F := map fsqrt (diagv (finv P)).
+  Definition corr_from_prec (P : fmatrix) : fmatrix := cov2corr (finv P).
+  Definition prec_from_cov (S : fmatrix) : fmatrix := finv S.
+  Definition cov_from_corrse (corr : fmatrix) (se : list F) : fmatrix := corr2cov corr se.
+  Definition prec_from_corrse (corr : fmatrix) (se : list F) : fmatrix := finv (corr2cov corr se).
+
   (* parameters_sdcorr on one joint block: sd on the diagonal, correlations elsewhere *)
   Definition sdcorr_block (sigma : fmatrix) : fmatrix :=
     let corr := cov2corr sigma in
